@@ -125,6 +125,45 @@ def hostile_document(names: list[str]) -> dict:
     return gen.mkdoc(schemas=schemas, paths=paths, title="Hostile names API")
 
 
+RESERVED_CLASSY = ["Type", "Format", "List", "Filter", "Input", "Class", "None", "Object", "Self", "Str", "Int", "Dict", "Set", "All", "Any", "Hash", "Iter", "Len", "Map",
+                   "Max", "Min", "Next", "Open", "Print", "Range", "Sum", "Super", "Zip", "Bool", "Bytes", "Float", "Import", "In", "Is", "Not", "Or", "As", "If", "For", "Try",
+                   "With", "Def", "Del", "Global", "Pass", "Raise", "Return", "Lambda", "Yield", "Async", "Await", "From", "True", "False", "Id", "Datetime", "Cast", "Json"]
+
+
+def reserved_named_document() -> dict:
+    """Enums, models and operations whose derived class / module names are builtins or keywords (used by models and endpoints)."""
+    S = {"type": "string"}
+    schemas, paths = {}, {}
+    for i, n in enumerate(RESERVED_CLASSY):
+        if i % 2 == 0:
+            schemas[n] = {"type": "string", "enum": ["a", "b"], "default": "a"}
+        else:
+            schemas[n] = {"type": "object", "properties": {"v": S, "again": {"$ref": f"#/components/schemas/{n}"}}}
+        schemas[f"User{i}"] = {"type": "object", "required": ["r"], "properties": {"r": {"$ref": f"#/components/schemas/{n}"}, "l": {"type": "array", "items": {"$ref": f"#/components/schemas/{n}"}},
+                                                                                "u": {"oneOf": [{"$ref": f"#/components/schemas/{n}"}, {"type": "integer"}]}}}
+        paths[f"/r{i}"] = {"get": {"operationId": f"use {n}", "tags": [n], "parameters": ([{"name": "q", "in": "query", "schema": {"$ref": f"#/components/schemas/{n}"}}] if i % 2 == 0 else []),
+                                   "responses": {"200": {"description": "d", "content": {"application/json": {"schema": {"$ref": f"#/components/schemas/{n}"}}}}}}}
+    return gen.mkdoc(schemas=schemas, paths=paths, title="Reserved names")
+
+
+def enum_collision_document() -> dict:
+    """Inline enums whose derived class names coincide (different parent/property splits): wider first / subset later / equal / disjoint, with defaults."""
+    def e(vals, default=None):
+        return {"type": "string", "enum": vals, **({"default": default} if default else {})}
+    schemas = {
+        "Order": {"type": "object", "properties": {"status_code": e(["pending", "shipped", "done"], "pending")}},
+        "OrderStatus": {"type": "object", "properties": {"code": e(["shipped", "done"])}},
+        "Job": {"type": "object", "properties": {"state_kind": e(["a", "b"], "a")}},
+        "JobState": {"type": "object", "properties": {"kind": e(["a", "b"], "b")}},
+        "Task": {"type": "object", "properties": {"phase_name": e(["x", "y"], "x")}},
+        "TaskPhase": {"type": "object", "properties": {"name": e(["p", "q"], "p")}},
+        "Narrow": {"type": "object", "properties": {"level_id": e(["lo"], "lo")}},
+        "NarrowLevel": {"type": "object", "properties": {"id": e(["lo", "hi"], "hi")}},
+    }
+    paths = {"/o": {"get": {"operationId": "getOrder", "responses": {"200": {"description": "d", "content": {"application/json": {"schema": {"$ref": "#/components/schemas/Order"}}}}}}}}
+    return gen.mkdoc(schemas=schemas, paths=paths, title="Enum collisions")
+
+
 def run(rep) -> None:
     quick = rep.tier == "quick"
     rnd = random.Random(seed() * 1069 + 1)
@@ -152,6 +191,8 @@ def run(rep) -> None:
         comps, fam = c02.structured_families()
         docs["structured"] = gen.mkdoc(schemas={**comps, **{k: v[0] for k, v in fam.items()}})
         docs["hostile-names"] = hostile_document(HOSTILE)
+        docs["reserved-names"] = reserved_named_document()
+        docs["enum-collisions"] = enum_collision_document()
         for name, rdoc in c12.rich_documents().items():
             if name in ("rich", "baseline_openapi_3.0.json") or not quick:
                 docs["doc:" + name] = rdoc
